@@ -68,7 +68,7 @@ Proof.
   induction ns as [|[nname op ntok ins outs attrs] r IH]; simpl; intros Hnd H0 Hsub; auto.
   destruct Hnd as [Hnd Hr]. split; [split; auto|].
   - intros k Hk. destruct (N.eqb_spec k 0) as [->|Hz]; auto. apply Hsub. apply in_or_app. left.
-    unfold nz. apply filter_In. split; auto. destruct (N.eqb_spec k 0); auto. contradiction.
+    unfold nz. apply filter_In. split; auto. destruct (N.eqb_spec k 0); auto.
   - apply IH; auto. intros k Hk. apply Hsub. apply in_or_app. auto.
 Qed.
 
